@@ -126,6 +126,9 @@ def list_kind(prog, body, op, list_params, depth=0):
                     kinds.add(k)
             elif d in ("core::iter::traits::iterator::Iterator::enumerate", "core::iter::traits::iterator::Iterator::zip", "core::iter::traits::iterator::Iterator::peekable"):
                 kinds.add(list_kind(prog, body, o.site.node["args"][0], list_params, depth + 1))
+            elif d in ("alloc::vec::Vec::new", "alloc::vec::Vec::with_capacity") and o.site is not None:
+                # a vector filled by hand: one push per iteration of a loop over a list keeps the list's kind
+                kinds.add(_pushed_list_kind(prog, body, o.site, list_params, depth))
             else:
                 # a local helper that maps a list it is given (`fn query_arguments(&self, labels: &[&T]) -> Vec<&Label<T>>`)
                 tgt = prog.body_for_callee(o.data, body) if o.data.get("decl") != "<indirect>" else None
@@ -151,6 +154,42 @@ def list_kind(prog, body, op, list_params, depth=0):
     if kinds <= {"FULL", "PARTIAL"}:
         return "PARTIAL"
     return "OTHER"
+
+
+def _pushed_list_kind(prog, body, new_site, list_params, depth):
+    dst = new_site.node["dst"]["l"]
+    pushes = [s for s in body.mut_call_defs.get(dst, []) if callee_decl(callee_of(s)) == "alloc::vec::Vec::push"]
+    others = [s for s in body.mut_call_defs.get(dst, []) if callee_decl(callee_of(s)) not in ("alloc::vec::Vec::push", "alloc::vec::Vec::reserve")]
+    if not pushes or others:
+        return "OTHER"
+    loops = body.loops()
+    out = set()
+    for ps in pushes:
+        ls = [(h, bl) for h, bl in loops if ps.bb in bl]
+        if not ls:
+            return "OTHER"
+        h, bl = min(ls, key=lambda x: len(x[1]))
+        nxt = [s for s in body.calls() if s.bb in bl and callee_decl(callee_of(s)) == "core::iter::traits::iterator::Iterator::next"]
+        nxt = [s for s in nxt if min([(hh, b2) for hh, b2 in loops if s.bb in b2], key=lambda x: len(x[1]))[0] == h]
+        if len(nxt) != 1:
+            return "OTHER"
+        k = list_kind(prog, body, nxt[0].node["args"][0], list_params, depth + 1)
+        if k not in ("FULL", "PARTIAL"):
+            return "OTHER"
+        # is the push met on every way round the loop?
+        seen, st, skip = {h}, [h], False
+        while st:
+            x = st.pop()
+            for sc in body.succ[x]:
+                if sc == h:
+                    skip = True
+                elif sc in bl and sc != ps.bb and sc not in seen and not body.blocks[sc]["cleanup"]:
+                    seen.add(sc)
+                    st.append(sc)
+        out.add("PARTIAL" if skip else k)
+    if out == {"FULL"}:
+        return "FULL"
+    return "PARTIAL" if out <= {"FULL", "PARTIAL"} else "OTHER"
 
 
 def _closure_capture_operand(prog, clo, field):
